@@ -2,7 +2,7 @@
    Statements only; proofs live in SMP/. *)
 From Coq Require Import List ZArith Bool.
 From JSL Require Import Base.Res SM.Types SM.Util SM.Handler SM.Step SM.Middleware SM.Inv SM.Example
-  SMP.Reflect SMP.StepInv SMP.Main SMP.Clock SMP.FeasStep SMP.Agv.
+  SMP.Reflect SMP.StepInv SMP.Main SMP.Clock SMP.FeasStep SMP.Agv SMP.LiftSide SMP.OutputDone SMP.LiftProv SMP.ProvBatch.
 Import ListNotations.
 
 (* Every job is stored exactly once, every stored number is a job (placement_b), each job's location
@@ -51,6 +51,15 @@ Theorem C03_machine_holds_one_partial :
     reachS sigma i fuel x0 joker0 ta r m -> mach_hold_b (r_x r) = true.
 Proof. intros. eapply reachS_mach_hold_past; eauto. Qed.
 Print Assumptions C03_machine_holds_one_partial.
+
+(* ... and without the side condition for instances whose machine post-buffers are unordered (FLEX, the default) *)
+Theorem C03_machine_holds_one_flex :
+  forall (sigma : oracle) (i : inst) (fuel : nat) (x0 : state) (joker0 : Z) (ta : bool) (r : result) (m : mw),
+    inst_nonneg_b i = true -> flex_post_b i = true ->
+    clock_b x0 = true -> wfs_b i x0 = true -> fresh2_b i x0 = true -> nodep_b x0 = true ->
+    reach sigma i fuel x0 joker0 ta r m -> mach_hold_b (r_x r) = true.
+Proof. intros sigma i fuel x0 joker0 ta r m Hnn Hf C W Fr D H. eapply flex_reachable; eauto. Qed.
+Print Assumptions C03_machine_holds_one_flex.
 
 (* "an AGV holds what the state says it holds": exactly one job while in TRANSIT, none in any other phase
    (agv_load_b) - after every applied transition, in every reachable state and every micro-state, for every
